@@ -306,10 +306,13 @@ def run(ctx):
         for b in tbad:
             i = b["i"]
             if i in again and i <= len(t2) and t2[i - 1].get("concrete") == trows[i - 1].get("concrete"):
+                if trows[i - 1]["matched"] in reported:
+                    continue   # the route itself has been reported above
                 rec = {"kind": "trace", "line": i, "entry": trows[i - 1], "expected": b["exp"], "cookie_class": b["cookie"],
-                       "hasUser": b["hasUser"]}
-                ctx.disagreement(classify(rec), rec, "trace line %d rejected by TraceRoutes: %s answered %s %s, admitted %s" % (
-                    i, trows[i - 1]["concrete"], trows[i - 1]["status"], trows[i - 1]["poss"], b["exp"]))
+                       "hasUser": b["hasUser"], "why": b["why"]}
+                ctx.disagreement(classify(rec), rec, "trace line %d rejected by TraceRoutes (%s): %s cookie=%s(%s) basic=%s answered %s %s, admitted %s" % (
+                    i, b["why"], trows[i - 1]["concrete"], trows[i - 1]["cookie"], b["cookie"], trows[i - 1]["basic"],
+                    trows[i - 1]["status"], trows[i - 1]["poss"], b["exp"]))
 
     treq = [t for t in trows if t["ev"] == "req"]
     nt = [v for v in sel if nontrivial(v)]
